@@ -71,6 +71,10 @@ def gen_job(r, files):
     elif x < 0.7:
         # duplicate-line bookkeeping: its variables are keyed by a fingerprint of the line
         txt = txt[:-1] + ' @dd = count_dups()]'
+    elif x < 0.8:
+        # a stack that is read before its first push and pushed to afterwards: what an unpushed stack reads as is
+        # this job's own business too
+        txt = txt[:-1] + ' @ps = peek_size("late") push("late", #0)]'
     return {"text": txt.replace("@@FILE@@", name), "file": name, "shape": lang.prog_shape(prog)}
 
 
